@@ -307,7 +307,7 @@ func init() {
 	reg("(*sync.RWMutex).Unlock", unlock(true))
 	reg("(*sync.RWMutex).RLock", lock(false))
 	reg("(*sync.RWMutex).RUnlock", unlock(false))
-	reg("(*sync.Mutex).TryLock", func(ex *Exec, caller *frame, fn *ssa.Function, args []Value) Value {
+	tryLock := func(ex *Exec, caller *frame, fn *ssa.Function, args []Value) Value {
 		p := args[0].(*Value)
 		m := ex.mutexes[p]
 		if m == nil {
@@ -321,6 +321,23 @@ func init() {
 		m.w = 1
 		ex.acquireEdge(p)
 		ex.acquireEdge(rdKey{p})
+		return ex.tb.True
+	}
+	reg("(*sync.Mutex).TryLock", tryLock)
+	reg("(*sync.RWMutex).TryLock", tryLock)
+	reg("(*sync.RWMutex).TryRLock", func(ex *Exec, caller *frame, fn *ssa.Function, args []Value) Value {
+		p := args[0].(*Value)
+		m := ex.mutexes[p]
+		if m == nil {
+			m = &mutexState{}
+			ex.mutexes[p] = m
+		}
+		ex.schedPoint(nil, "TryRLock")
+		if m.w > 0 {
+			return ex.tb.False
+		}
+		m.r++
+		ex.acquireEdge(p)
 		return ex.tb.True
 	})
 	reg("(*sync.Once).Do", func(ex *Exec, caller *frame, fn *ssa.Function, args []Value) Value {
